@@ -240,13 +240,29 @@ def r3_reproducible(ctx, chk, rule="C15.3"):
         if g in scope:
             continue
         for c in walk_no_nested_defs(g.node):
-            if isinstance(c, ast.Call) and (call_name(c).startswith("random.") or call_name(c) in ("time.time", "os.urandom", "uuid.uuid4", "secrets.token_bytes")):
+            if isinstance(c, ast.Call) and call_name(c).startswith("random."):
                 chk.violation(rule, g.where(c), "`%s` outside the seeded board construction" % src(c), expected="all randomness inside gen_rnd_board after seeding", found=src(c),
                               construct="%s unseeded entropy" % g.short)
     m = ctx.prog.mod(GEN)
-    bad_imports = [v[0] for v in m.imports.values() if v[0].split(".")[0] in ("time", "os", "uuid", "secrets", "datetime")]
-    if bad_imports:
-        chk.violation(rule, GEN, "generator imports %s" % bad_imports, expected="random, math, argparse", found=bad_imports, construct="generator entropy import")
+    # clocks / OS entropy: an import alone decides nothing (os.path, timing of a run); a use inside the board construction does
+    ent_mods = ("time", "uuid", "secrets", "datetime")
+    ent_calls = ("os.urandom", "os.getpid", "os.getenv", "os.times", "os.getrandom")
+    for g in ctx.prog.all_funcs((GEN, "stochastic_game_from_roborta_board.py")):
+        for c in walk_no_nested_defs(g.node):
+            if not isinstance(c, ast.Call):
+                continue
+            nm = call_name(c)
+            head = nm.split(".")[0]
+            full = nm
+            if head in g.mod.imports:
+                m2, attr = g.mod.imports[head]
+                full = (m2 + "." + attr if attr else m2) + nm[len(head):]
+            if full.split(".")[0] in ent_mods or full in ent_calls:
+                if g in scope:
+                    chk.violation(rule, g.where(c), "`%s` inside the board construction: the board depends on the clock / the environment, not only on the seed" % src(c),
+                                  expected="only the seeded module-level generator", found=src(c), construct="%s entropy call" % g.short)
+                else:
+                    chk.undecided(rule, g.where(c), "`%s` in the generator outside the board construction: its influence on the generated file is not tracked" % src(c))
     for c in ast.walk(m.tree):
         if isinstance(c, ast.Call) and call_name(c) in ("random.SystemRandom", "random.Random"):
             chk.violation(rule, GEN, "`%s`: a separate generator is not covered by random.seed(seed)" % src(c), expected="module-level generator", found=src(c), construct="generator separate Random")
